@@ -460,9 +460,9 @@ func c09GenLog(rt *rapid.T) *c09Case {
 	c := &c09Case{N: n, Entries: make([]*c09Entry, n+1), States: make([]c09State, n+1), Idx: make([]uint64, n+1),
 		Data: make([][]byte, n+1), Ext: make([][]byte, n+1)}
 	c.States[0] = c09State{}
-	firstPos := map[int]int{}      // spec -> slot of its first chunk
-	chunkSlots := map[int][]int{}  // spec -> slots of its non-final chunks
-	specOf := make([]int, n+1)     // slot -> spec (final / only slot of an entry)
+	firstPos := map[int]int{}     // spec -> slot of its first chunk
+	chunkSlots := map[int][]int{} // spec -> slots of its non-final chunks
+	specOf := make([]int, n+1)    // slot -> spec (final / only slot of an entry)
 	for p := 1; p <= n; p++ {
 		sl := slots[p-1]
 		sp := specs[sl.spec]
@@ -728,6 +728,8 @@ type c09Divergence struct {
 	Kind    string // verdict | state | index | panic | response | reopen-index | snapshot | chunk-lost | chunk-keys
 	Got     string
 	Want    string
+	BatchLo int // the batch in which it showed
+	BatchHi int
 }
 
 type c09Replica struct {
@@ -771,6 +773,11 @@ func (r *c09Replica) apply(rt *rapid.T, c *c09Case, lo, hi int) {
 	if r.div != nil {
 		return
 	}
+	defer func() {
+		if r.div != nil && r.div.BatchHi == 0 {
+			r.div.BatchLo, r.div.BatchHi = lo, hi
+		}
+	}()
 	logs := make([]*raft.Log, 0, hi-lo+1)
 	for p := lo; p <= hi; p++ {
 		logs = append(logs, &raft.Log{Index: c.Idx[p], Term: 1, Type: raft.LogCommand, Data: c.Data[p], Extensions: c.Ext[p]})
@@ -826,10 +833,12 @@ func (r *c09Replica) apply(rt *rapid.T, c *c09Case, lo, hi int) {
 			}
 		}
 	}
-	if r.div != nil {
-		return
+	if r.div == nil {
+		r.checkState(c, hi)
 	}
-	r.checkState(c, hi)
+	if r.div != nil && r.div.BatchHi == 0 {
+		r.div.BatchLo, r.div.BatchHi = lo, hi
+	}
 }
 
 func (r *c09Replica) checkState(c *c09Case, p int) {
@@ -902,6 +911,30 @@ func c09InstallSnapshot(src *FSM, srcDir string, dst *FSM, dstDir string) error 
 	return nil
 }
 
+// c09RootListWithChunks: transaction e verifies a listing of the root prefix, and when the replica verified it the
+// data bucket held chunks: of an entry still incomplete, or of a chunk log later in the same batch (the chunking
+// wrapper stores all chunks of a batch before it hands the other logs to the FSM).
+func c09RootListWithChunks(c *c09Case, e *c09Entry, d *c09Divergence) bool {
+	root := false
+	for _, v := range e.Verifies {
+		if v.IsList && (v.Prefix == "" || v.Prefix == "/") {
+			root = true
+		}
+	}
+	if !root {
+		return false
+	}
+	if c.inflight(e.Pos-1) > 0 {
+		return true
+	}
+	for q := e.Pos + 1; q <= d.BatchHi; q++ {
+		if c.Entries[q].Kind == "chunk" {
+			return true
+		}
+	}
+	return false
+}
+
 func c09TempRoot(rt *rapid.T, pattern string) string {
 	base := ""
 	if st, err := os.Stat("/dev/shm"); err == nil && st.IsDir() {
@@ -922,299 +955,391 @@ func c09PickPos(rt *rapid.T, label string, cands []int) int {
 
 func TestVerif_C09_Replicas(t *testing.T) {
 	rec := verifx.NewRecorder("C09", "replicas",
-		"log of 3..40 entries from a simulated leader (puts/deletes over 6 keys in 2 directories, 3 values + empty; transactions started up to 6 entries back with verifyRead/verifyList hashes computed by the package's helpers on the model state at the start index, ~5% of hashes of modified keys/listings forged; raft index gaps; LowestActiveIndex of a correct leader) applied to R0 (1 entry per batch), R1 (random batches), R2 (random batches + Close/NewFSM at a generated position), R3 (optional lagging prefix, then snapshot of R0 through BoltSnapshotStore/BoltSnapshotSink/boltSnapshotInstaller/FSM.Restore at a generated position, then the suffix); non-trivial = the log has a transaction whose read set was written between its start index and its position AND a reopen or snapshot install of a replica lies strictly between that start and that position")
+		"log of 1..40 entries from a simulated leader (puts/deletes over 6 keys in 2 directories, 3 values + empty; transactions started up to 6 entries back with verifyRead/verifyList hashes computed by the package's helpers on the model state at the start index, ~5% of hashes of modified keys/listings forged; raft index gaps; LowestActiveIndex of a correct leader; in ~20% of the logs 1-2 entries whose command exceeds raftchunking.ChunkSize, cut into 2-3 chunk logs by raftchunking.ChunkingApply, optionally with other entries logged between the chunks) applied through FSM.chunker.ApplyBatch to R0 (1 log per batch), R1 (random batches), R2 (random batches + Close/NewFSM at a generated position, continuing with the next log or replaying the trailing chunk logs the FSM index does not cover), R3 (optional lagging prefix, then snapshot of R0 through BoltSnapshotStore/BoltSnapshotSink/boltSnapshotInstaller/FSM.Restore at a generated position, then the suffix); non-trivial = the log has a transaction whose read set was written between its start index and its position AND a reopen or snapshot install of a replica lies strictly between that start and that position, or a reopen / snapshot install lies between the chunks of an entry")
 	defer rec.Flush()
 	rapid.Check(t, func(rt *rapid.T) {
 		c := c09GenLog(rt)
-		n := c.N
-		allowInside := rapid.IntRange(0, 9).Draw(rt, "allowRestartInsideTxnWindow") < 6
+		c09RunReplicas(rt, rec, c, "the reference replay")
+	})
+}
 
-		// candidate restart positions
-		insideAny := make([]bool, n+1)   // strictly inside some transaction window
-		insideStale := make([]bool, n+1) // strictly inside the window of a transaction with a modified read set
-		for p := 1; p <= n; p++ {
-			if e := c.Entries[p]; e.Kind == "txn" {
-				for r := e.StartPos + 1; r < p; r++ {
-					insideAny[r] = true
-					if e.Stale {
-						insideStale[r] = true
-					}
+// c09RunReplicas applies the log of c to the four replicas under generated batchings, a generated reopen position
+// and a generated snapshot-install position, and compares each of them with c's verdicts and states. ref names
+// where those come from (the always-verify replay of a generated log, or the verdicts a live leader reported).
+func c09RunReplicas(rt *rapid.T, rec *verifx.Recorder, c *c09Case, ref string) {
+	n := c.N
+	allowInside := rapid.IntRange(0, 9).Draw(rt, "allowRestartInsideTxnWindow") < 6
+
+	// candidate restart positions
+	insideAny := make([]bool, n+1)   // strictly inside some transaction window, or between the chunks of an entry
+	insideStale := make([]bool, n+1) // strictly inside the window of a transaction with a modified read set
+	inChunks := make([]bool, n+1)    // between the chunks of an entry
+	for p := 1; p <= n; p++ {
+		e := c.Entries[p]
+		if e.Kind == "txn" {
+			for r := e.StartPos + 1; r < p; r++ {
+				insideAny[r] = true
+				if e.Stale {
+					insideStale[r] = true
 				}
 			}
 		}
-		var all, outside, stale []int
-		for r := 0; r <= n; r++ {
-			all = append(all, r)
-			if !insideAny[r] {
-				outside = append(outside, r)
-			}
-			if insideStale[r] {
-				stale = append(stale, r)
+		if e.Kind != "chunk" && e.NumChunks > 1 {
+			for r := e.FirstPos; r < p; r++ {
+				insideAny[r], inChunks[r] = true, true
 			}
 		}
-		nonEmpty := func(in []int) []int {
-			var out []int
-			for _, r := range in {
-				// a snapshot of an empty store has no file to install; position 0 has nothing to snapshot
-				if r >= 1 && len(c.States[r]) > 0 {
-					out = append(out, r)
-				}
-			}
-			return out
+	}
+	var all, outside, stale, chunky []int
+	for r := 0; r <= n; r++ {
+		all = append(all, r)
+		if !insideAny[r] {
+			outside = append(outside, r)
 		}
-		pick := func(label string, snap bool) int {
-			f := func(x []int) []int {
-				if snap {
-					return nonEmpty(x)
-				}
-				return x
+		if insideStale[r] {
+			stale = append(stale, r)
+		}
+		if inChunks[r] {
+			chunky = append(chunky, r)
+		}
+	}
+	nonEmpty := func(in []int) []int {
+		var out []int
+		for _, r := range in {
+			// a snapshot of an empty store has no file to install; position 0 has nothing to snapshot
+			if r >= 1 && len(c.States[r]) > 0 {
+				out = append(out, r)
 			}
-			if !allowInside {
-				if cs := f(outside); len(cs) > 0 {
-					return c09PickPos(rt, label, cs)
-				}
-				return -1
+		}
+		return out
+	}
+	pick := func(label string, snap bool) int {
+		f := func(x []int) []int {
+			if snap {
+				return nonEmpty(x)
 			}
-			if cs := f(stale); len(cs) > 0 && rapid.IntRange(0, 9).Draw(rt, label+"Target") < 8 {
-				return c09PickPos(rt, label, cs)
-			}
-			if cs := f(all); len(cs) > 0 {
+			return x
+		}
+		if !allowInside {
+			if cs := f(outside); len(cs) > 0 {
 				return c09PickPos(rt, label, cs)
 			}
 			return -1
 		}
-		r2pos := pick("r2pos", false)
-		r3pos := pick("r3pos", true)
-		r3lag := 0
-		if r3pos > 0 && rapid.IntRange(0, 9).Draw(rt, "r3lagDie") < 3 {
-			r3lag = rapid.IntRange(0, r3pos-1).Draw(rt, "r3lag")
+		if cs := f(chunky); len(cs) > 0 && rapid.IntRange(0, 9).Draw(rt, label+"BetweenChunks") < 6 {
+			return c09PickPos(rt, label, cs)
 		}
-		r1b := c09Batches(rt, "r1", 0, n)
-		r2a := c09Batches(rt, "r2a", 0, r2pos)
-		r2b := c09Batches(rt, "r2b", r2pos, n)
-		var r3a, r3b [][2]int
-		if r3pos > 0 {
-			r3a = c09Batches(rt, "r3a", 0, r3lag)
-			r3b = c09Batches(rt, "r3b", r3pos, n)
+		if cs := f(stale); len(cs) > 0 && rapid.IntRange(0, 9).Draw(rt, label+"Target") < 8 {
+			return c09PickPos(rt, label, cs)
 		}
+		if cs := f(all); len(cs) > 0 {
+			return c09PickPos(rt, label, cs)
+		}
+		return -1
+	}
+	r2pos := pick("r2pos", false)
+	r3pos := pick("r3pos", true)
+	// After the reopen / install the replica continues with the next log (a raft snapshot was taken at that
+	// position), or - replayTrailing - with the first log after the index its FSM persisted, which is what raft
+	// replays after a plain restart: the chunk logs that trail the last log that reached the FSM are fed again.
+	r2replay := rapid.Bool().Draw(rt, "r2replayTrailing")
+	r3replay := rapid.Bool().Draw(rt, "r3replayTrailing")
+	r2resume, r3resume := r2pos+1, r3pos+1
+	if r2replay {
+		r2resume = c.lastVisible(r2pos) + 1
+	}
+	if r3replay && r3pos > 0 {
+		r3resume = c.lastVisible(r3pos) + 1
+	}
+	r3lag := 0
+	if r3pos > 0 && rapid.IntRange(0, 9).Draw(rt, "r3lagDie") < 3 {
+		r3lag = rapid.IntRange(0, r3pos-1).Draw(rt, "r3lag")
+	}
+	r1b := c09Batches(rt, "r1", 0, n)
+	r2a := c09Batches(rt, "r2a", 0, r2pos)
+	r2b := c09Batches(rt, "r2b", r2resume-1, n)
+	var r3a, r3b [][2]int
+	if r3pos > 0 {
+		r3a = c09Batches(rt, "r3a", 0, r3lag)
+		r3b = c09Batches(rt, "r3b", r3resume-1, n)
+	}
 
-		root := c09TempRoot(rt, "verif-c09-")
-		var open []*FSM
-		defer func() {
-			for _, f := range open {
-				if f != nil && f.db != nil {
-					_ = f.Close()
-				}
+	root := c09TempRoot(rt, "verif-c09-")
+	var open []*FSM
+	defer func() {
+		for _, f := range open {
+			if f != nil && f.db != nil {
+				_ = f.Close()
 			}
-			_ = os.RemoveAll(root)
-		}()
-		mk := func(name string, restart int) *c09Replica {
-			d := filepath.Join(root, name)
-			if err := os.MkdirAll(d, 0o700); err != nil {
-				rt.Fatalf("harness: %v", err)
-			}
-			r := &c09Replica{name: name, dir: d, fsm: c09NewFSM(rt, d), restartPos: restart, verdicts: map[int]bool{}}
-			open = append(open, r.fsm)
-			return r
 		}
-		r0, r1, r2 := mk("R0", -1), mk("R1", -1), mk("R2", r2pos)
-		var r3 *c09Replica
-		if r3pos > 0 {
-			r3 = mk("R3", r3pos)
-			for _, b := range r3a {
+		_ = os.RemoveAll(root)
+	}()
+	mk := func(name string, restart, resume int) *c09Replica {
+		d := filepath.Join(root, name)
+		if err := os.MkdirAll(d, 0o700); err != nil {
+			rt.Fatalf("harness: %v", err)
+		}
+		r := &c09Replica{name: name, dir: d, fsm: c09NewFSM(rt, d), restartPos: restart, resume: resume, verdicts: map[int]bool{}}
+		open = append(open, r.fsm)
+		return r
+	}
+	r0, r1, r2 := mk("R0", -1, 0), mk("R1", -1, 0), mk("R2", r2pos, r2resume)
+	var r3 *c09Replica
+	if r3pos > 0 {
+		r3 = mk("R3", r3pos, r3resume)
+		for _, b := range r3a {
+			r3.apply(rt, c, b[0], b[1])
+		}
+	}
+
+	// R0: one log per batch; snapshot for R3 taken at r3pos
+	for p := 1; p <= n; p++ {
+		r0.apply(rt, c, p, p)
+		if r3 != nil && p == r3pos && r0.div == nil && r3.div == nil {
+			if err := c09InstallSnapshot(r0.fsm, r0.dir, r3.fsm, r3.dir); err != nil {
+				r3.div = &c09Divergence{Replica: "R3", Pos: p, Kind: "snapshot", Got: err.Error(), Want: "snapshot installed"}
+			} else {
+				r3.applied = p
+				r3.checkState(c, p)
+			}
+		}
+	}
+	for _, b := range r1b {
+		r1.apply(rt, c, b[0], b[1])
+	}
+	for _, b := range r2a {
+		r2.apply(rt, c, b[0], b[1])
+	}
+	if r2.div == nil {
+		if err := r2.fsm.Close(); err != nil {
+			rt.Fatalf("harness: close R2: %v", err)
+		}
+		for i, f := range open {
+			if f == r2.fsm {
+				open[i] = nil
+			}
+		}
+		r2.fsm = c09NewFSM(rt, r2.dir)
+		open = append(open, r2.fsm)
+		if li, _ := r2.fsm.LatestState(); li.Index != c.Idx[c.lastVisible(r2pos)] {
+			r2.div = &c09Divergence{Replica: "R2", Pos: r2pos, Kind: "reopen-index", Got: fmt.Sprint(li.Index), Want: fmt.Sprint(c.Idx[c.lastVisible(r2pos)])}
+		} else {
+			r2.checkState(c, r2pos)
+		}
+	}
+	for _, b := range r2b {
+		r2.apply(rt, c, b[0], b[1])
+	}
+	if r3 != nil {
+		if r0.div != nil && r0.div.Pos <= r3pos {
+			r3 = nil // the source of the snapshot already left the model; R0's divergence is reported
+		} else {
+			for _, b := range r3b {
 				r3.apply(rt, c, b[0], b[1])
 			}
 		}
+	}
+	reps := []*c09Replica{r0, r1, r2}
+	if r3 != nil {
+		reps = append(reps, r3)
+	}
+	byName := func(name string) *c09Replica {
+		for _, x := range reps {
+			if x.name == name {
+				return x
+			}
+		}
+		return nil
+	}
+	// straddles: some chunk of e was logged before the replica's resume point and is not fed again, the final chunk
+	// comes after it
+	straddles := func(r *c09Replica, e *c09Entry) bool {
+		return r.restartPos >= 0 && e.Kind != "chunk" && e.NumChunks > 1 && e.FirstPos < r.resume && r.resume <= e.Pos
+	}
 
-		// R0: one entry per batch; snapshot for R3 taken at r3pos
-		for p := 1; p <= n; p++ {
-			r0.apply(rt, c, p, p)
-			if r3 != nil && p == r3pos && r0.div == nil && r3.div == nil {
-				if err := c09InstallSnapshot(r0.fsm, r0.dir, r3.fsm, r3.dir); err != nil {
-					r3.div = &c09Divergence{Replica: "R3", Pos: p, Kind: "snapshot", Got: err.Error(), Want: "snapshot installed"}
-				} else {
-					r3.applied = p
-					r3.checkState(c, p)
-				}
-			}
-		}
-		for _, b := range r1b {
-			r1.apply(rt, c, b[0], b[1])
-		}
-		for _, b := range r2a {
-			r2.apply(rt, c, b[0], b[1])
-		}
-		if r2.div == nil {
-			if err := r2.fsm.Close(); err != nil {
-				rt.Fatalf("harness: close R2: %v", err)
-			}
-			for i, f := range open {
-				if f == r2.fsm {
-					open[i] = nil
-				}
-			}
-			r2.fsm = c09NewFSM(rt, r2.dir)
-			open = append(open, r2.fsm)
-			if li, _ := r2.fsm.LatestState(); li.Index != c.Idx[r2pos] {
-				r2.div = &c09Divergence{Replica: "R2", Pos: r2pos, Kind: "reopen-index", Got: fmt.Sprint(li.Index), Want: fmt.Sprint(c.Idx[r2pos])}
-			} else {
-				r2.checkState(c, r2pos)
-			}
-		}
-		for _, b := range r2b {
-			r2.apply(rt, c, b[0], b[1])
-		}
-		if r3 != nil {
-			if r0.div != nil && r0.div.Pos <= r3pos {
-				r3 = nil // the source of the snapshot already left the model; R0's divergence is reported
-			} else {
-				for _, b := range r3b {
-					r3.apply(rt, c, b[0], b[1])
-				}
-			}
-		}
-		reps := []*c09Replica{r0, r1, r2}
-		if r3 != nil {
-			reps = append(reps, r3)
-		}
-
-		// ---- coverage
-		nTxn, nStale, nConflict, nForged := 0, 0, 0, 0
-		windowHit := false
-		for p := 1; p <= n; p++ {
-			e := c.Entries[p]
-			if e.Kind != "txn" {
-				continue
-			}
-			nTxn++
-			if e.Forged {
-				nForged++
-			}
-			if !e.ModelCommit {
-				nConflict++
-			}
-			if e.Stale {
-				nStale++
-				for _, r := range reps {
-					if r.restartPos > e.StartPos && r.restartPos < p {
-						windowHit = true
-					}
-				}
-			}
-		}
-		class := fmt.Sprintf("restartInsideWindowAllowed=%v staleTxn=%v", allowInside, nStale > 0)
-		render := func() map[string]any {
-			lines := make([]string, 0, n)
-			for p := 1; p <= n; p++ {
-				lines = append(lines, c.Entries[p].String())
-			}
-			vs := map[string]string{}
+	// ---- coverage
+	nTxn, nStale, nConflict, nForged, nChunked := 0, 0, 0, 0, 0
+	windowHit, chunkHit, chunkReplayHit := false, false, false
+	for p := 1; p <= n; p++ {
+		e := c.Entries[p]
+		if e.Kind != "chunk" && e.NumChunks > 1 {
+			nChunked++
 			for _, r := range reps {
-				var sb strings.Builder
-				for p := 1; p <= n; p++ {
-					if v, ok := r.verdicts[p]; ok {
-						fmt.Fprintf(&sb, "#%d:%s ", p, c09VerdictName(v))
-					}
+				if straddles(r, e) {
+					chunkHit = true
+				} else if r.restartPos >= e.FirstPos && r.restartPos < e.Pos {
+					chunkReplayHit = true
 				}
-				vs[r.name] = sb.String()
 			}
-			return map[string]any{"log": lines, "r1_batches": fmt.Sprint(r1b), "r2_reopen_after": r2pos, "r2_batches": fmt.Sprint(r2a, r2b),
-				"r3_snapshot_at": r3pos, "r3_lag_prefix": r3lag, "r3_batches": fmt.Sprint(r3a, r3b), "verdicts": vs,
-				"allowRestartInsideTxnWindow": allowInside, "final_model_state": c.States[n].dump()}
 		}
-		dg := verifx.Digest("c09", fmt.Sprint(render()))
-		rec.Case(class, windowHit, dg, func() any { return render() })
-		if nTxn > 0 {
-			rec.Class("logs-with-txn", 1)
+		if e.Kind != "txn" {
+			continue
 		}
-		if nConflict > 0 {
-			rec.Class("logs-with-model-conflict", 1)
+		nTxn++
+		if e.Forged {
+			nForged++
 		}
-		if nForged > 0 {
-			rec.Class("logs-with-forged-hash", 1)
+		if !e.ModelCommit {
+			nConflict++
 		}
-		if r3 == nil {
-			rec.Class("r3-not-run", 1)
-		} else if r3lag > 0 {
-			rec.Class("r3-lagging-prefix", 1)
+		if e.Stale {
+			nStale++
+			for _, r := range reps {
+				if r.restartPos > e.StartPos && r.restartPos < p {
+					windowHit = true
+				}
+			}
 		}
-		if windowHit && !allowInside {
-			rt.Fatalf("harness: restart inside a transaction window although not allowed")
+	}
+	class := fmt.Sprintf("restartInsideWindowAllowed=%v staleTxn=%v", allowInside, nStale > 0)
+	render := func() map[string]any {
+		lines := make([]string, 0, n)
+		for p := 1; p <= n; p++ {
+			lines = append(lines, c.Entries[p].String())
 		}
-
-		// ---- verdict
-		var divs []*c09Divergence
+		vs := map[string]string{}
 		for _, r := range reps {
-			if r.div != nil {
-				divs = append(divs, r.div)
-			}
-		}
-		if len(divs) == 0 {
-			// all replicas followed the model to the end; cross-check them against each other once more
-			base, err := c09Dump(r0.fsm)
-			if err != nil {
-				rt.Fatalf("harness: dump: %v", err)
-			}
-			for _, r := range reps[1:] {
-				got, _ := c09Dump(r.fsm)
-				gi, _ := r.fsm.LatestState()
-				bi, _ := r0.fsm.LatestState()
-				if strings.Join(got, "\n") != strings.Join(base, "\n") || gi.Index != bi.Index {
-					rec.Violation(rt, "replicas-end-state-differs", render(), "%s ends with %v @%d, R0 with %v @%d", r.name, got, gi.Index, base, bi.Index)
+			var sb strings.Builder
+			for p := 1; p <= n; p++ {
+				if v, ok := r.verdicts[p]; ok {
+					fmt.Fprintf(&sb, "#%d:%s ", p, c09VerdictName(v))
 				}
 			}
-			return
+			vs[r.name] = sb.String()
 		}
-		rec.Class("cases-with-divergence", 1)
-		sort.SliceStable(divs, func(i, j int) bool { return divs[i].Pos < divs[j].Pos })
-		isF1 := func(d *c09Divergence) bool {
-			if d.Kind != "verdict" || d.Got != "commit" || d.Want != "conflict" {
+		return map[string]any{"log": lines, "r1_batches": fmt.Sprint(r1b), "r2_reopen_after": r2pos, "r2_resumes_at": r2resume, "r2_batches": fmt.Sprint(r2a, r2b),
+			"r3_snapshot_at": r3pos, "r3_resumes_at": r3resume, "r3_lag_prefix": r3lag, "r3_batches": fmt.Sprint(r3a, r3b), "verdicts": vs,
+			"allowRestartInsideTxnWindow": allowInside, "final_model_state": c.States[n].dump()}
+	}
+	dg := verifx.Digest("c09", fmt.Sprint(render()))
+	rec.Case(class, windowHit || chunkHit || chunkReplayHit, dg, func() any { return render() })
+	if nTxn > 0 {
+		rec.Class("logs-with-txn", 1)
+	}
+	if nConflict > 0 {
+		rec.Class("logs-with-model-conflict", 1)
+	}
+	if nForged > 0 {
+		rec.Class("logs-with-forged-hash", 1)
+	}
+	if nChunked > 0 {
+		rec.Class("logs-with-chunked-entry", 1)
+	}
+	if chunkHit {
+		rec.Class("restart-between-chunks:earlier-chunk-not-fed-again", 1)
+	}
+	if chunkReplayHit {
+		rec.Class("restart-between-chunks:all-chunks-fed-again", 1)
+	}
+	if r3 == nil {
+		rec.Class("r3-not-run", 1)
+	} else if r3lag > 0 {
+		rec.Class("r3-lagging-prefix", 1)
+	}
+	if (windowHit || chunkHit || chunkReplayHit) && !allowInside {
+		rt.Fatalf("harness: restart inside a transaction window or between chunks although not allowed")
+	}
+
+	// ---- verdict
+	var divs []*c09Divergence
+	for _, r := range reps {
+		if r.div != nil {
+			divs = append(divs, r.div)
+		}
+	}
+	// every replica that followed to the end: no chunk may be left, and they agree with each other
+	var base *c09Replica
+	for _, r := range reps {
+		if r.div != nil {
+			continue
+		}
+		got, chunks, err := c09Dump(r.fsm)
+		if err != nil {
+			rt.Fatalf("harness: dump: %v", err)
+		}
+		if chunks != 0 {
+			rec.Violation(rt, "chunk-keys-left-behind", render(), "%s ends with %d keys under %s", r.name, chunks, chunkingPrefix)
+		}
+		if base == nil {
+			base = r
+			continue
+		}
+		bgot, _, _ := c09Dump(base.fsm)
+		gi, _ := r.fsm.LatestState()
+		bi, _ := base.fsm.LatestState()
+		if strings.Join(got, "\n") != strings.Join(bgot, "\n") || gi.Index != bi.Index {
+			rec.Violation(rt, "replicas-end-state-differs", render(), "%s ends with %v @%d, %s with %v @%d", r.name, got, gi.Index, base.name, bgot, bi.Index)
+		}
+	}
+	if len(divs) == 0 {
+		return
+	}
+	rec.Class("cases-with-divergence", 1)
+	sort.SliceStable(divs, func(i, j int) bool { return divs[i].Pos < divs[j].Pos })
+	isF1 := func(d *c09Divergence) bool {
+		if d.Kind != "verdict" || d.Got != "commit" || d.Want != "conflict" {
+			return false
+		}
+		r := byName(d.Replica)
+		e := c.Entries[d.Pos]
+		if r == nil || r.restartPos < 0 || !(r.restartPos > e.StartPos && r.restartPos < d.Pos) {
+			return false
+		}
+		// the continuous replicas agreed with the reference up to and including this entry
+		for _, x := range []*c09Replica{r0, r1} {
+			if x.div != nil && x.div.Pos <= d.Pos {
 				return false
 			}
-			var r *c09Replica
-			for _, x := range reps {
-				if x.name == d.Replica {
-					r = x
-				}
-			}
-			e := c.Entries[d.Pos]
-			if r == nil || r.restartPos < 0 || !(r.restartPos > e.StartPos && r.restartPos < d.Pos) {
+			if v, ok := x.verdicts[d.Pos]; !ok || v != e.ModelCommit {
 				return false
 			}
-			// the continuous replicas agreed with the always-verify model up to and including this entry
-			for _, x := range []*c09Replica{r0, r1} {
-				if x.div != nil && x.div.Pos <= d.Pos {
-					return false
-				}
-				if v, ok := x.verdicts[d.Pos]; !ok || v != e.ModelCommit {
-					return false
-				}
-			}
-			return true
 		}
-		detail := func(d *c09Divergence) map[string]any {
-			m := render()
-			m["divergence"] = map[string]any{"replica": d.Replica, "position": d.Pos, "kind": d.Kind, "got": d.Got, "model": d.Want, "entry": c.Entries[d.Pos].String()}
-			b, _ := json.Marshal(divs)
-			m["all_divergences"] = string(b)
-			return m
-		}
-		for _, d := range divs {
-			if isF1(d) {
-				continue
+		return true
+	}
+	detail := func(d *c09Divergence) map[string]any {
+		m := render()
+		m["divergence"] = map[string]any{"replica": d.Replica, "position": d.Pos, "kind": d.Kind, "got": d.Got, "reference": d.Want, "entry": c.Entries[d.Pos].String()}
+		b, _ := json.Marshal(divs)
+		m["all_divergences"] = string(b)
+		return m
+	}
+	// Every divergence is reported; a signature listed as a known finding makes rec.Violation return false, the
+	// replica concerned has already stopped at its divergence and the others were compared to the end.
+	for _, d := range divs {
+		e := c.Entries[d.Pos]
+		r := byName(d.Replica)
+		switch {
+		case isF1(d):
+			rec.Violation(rt, "restart-loses-fastpath-tracker", detail(d),
+				"replica %s lost its in-memory state after entry #%d and then committed transaction #%d (start #%d, read set written in between) that the continuous replicas and %s reject: %s",
+				d.Replica, r.restartPos, d.Pos, e.StartPos, ref, e.String())
+		case (d.Kind == "chunk-lost" || d.Kind == "chunk-keys") && r != nil && (straddles(r, e) || (e.Kind == "chunk" && straddles(r, e.Owner))):
+			// (with three chunks the loss already shows at the middle chunk: the chunks stored before are gone)
+			if e.Kind == "chunk" {
+				e = e.Owner
 			}
+			how := "restart-between-chunks"
+			what := fmt.Sprintf("was reopened after log #%d", r.restartPos)
+			if r.name == "R3" {
+				how = "snapshot-install-between-chunks"
+				what = fmt.Sprintf("installed a snapshot taken after log #%d", r.restartPos)
+			}
+			rec.Violation(rt, "chunked-op-lost:"+how, detail(d),
+				"replica %s %s and continued with log #%d, between the chunks (first #%d, final #%d) of entry %s: the chunks stored before are dropped when the next chunk arrives, the final chunk is answered with nil and the entry is never applied, while the continuous replicas apply it",
+				d.Replica, what, r.resume, e.FirstPos, e.Pos, e.String())
+		case d.Kind == "verdict" && d.Got == "conflict" && d.Want == "commit" && c09RootListWithChunks(c, e, d):
+			rec.Violation(rt, "chunk-keys-visible-to-root-list-verification", detail(d),
+				"replica %s rejects transaction %s, %s commits it: it verifies a listing of the root prefix while chunks of another entry are stored under %q in the data bucket (stored before the batch #%d..#%d is applied, or left from earlier logs), so the listing shows %q and the verdict depends on how the logs are batched",
+				d.Replica, e.String(), ref, chunkingPrefix, d.BatchLo, d.BatchHi, chunkingPrefix)
+		default:
 			sig := "replica-differs-from-model:" + d.Kind
 			switch d.Kind {
 			case "verdict":
 				// who else disagrees at this entry?
-				agree, disagree := 0, 0
+				agree := 0
 				for _, x := range reps {
-					if v, ok := x.verdicts[d.Pos]; ok {
-						if v == c.Entries[d.Pos].ModelCommit {
-							agree++
-						} else {
-							disagree++
-						}
+					if v, ok := x.verdicts[d.Pos]; ok && v == e.ModelCommit {
+						agree++
 					}
 				}
 				who := "replicas-disagree"
@@ -1229,19 +1354,7 @@ func TestVerif_C09_Replicas(t *testing.T) {
 			case "snapshot":
 				sig = "snapshot-install-fails"
 			}
-			rec.Violation(rt, sig, detail(d), "replica %s at entry #%d (%s): %s: got %s, reference replay says %s", d.Replica, d.Pos, c.Entries[d.Pos].String(), d.Kind, d.Got, d.Want)
-			return
+			rec.Violation(rt, sig, detail(d), "replica %s at entry #%d (%s): %s: got %s, %s says %s", d.Replica, d.Pos, e.String(), d.Kind, d.Got, ref, d.Want)
 		}
-		d := divs[0]
-		e := c.Entries[d.Pos]
-		var rr *c09Replica
-		for _, x := range reps {
-			if x.name == d.Replica {
-				rr = x
-			}
-		}
-		rec.Violation(rt, "restart-loses-fastpath-tracker", detail(d),
-			"replica %s lost its in-memory state after entry #%d and then committed transaction #%d (start #%d, read set written in between) that the continuous replicas and the always-verify replay reject: %s",
-			d.Replica, rr.restartPos, d.Pos, e.StartPos, e.String())
-	})
+	}
 }
